@@ -331,6 +331,33 @@ pub fn c08(j: &mut Judge, v: &StepView) {
 }
 
 pub fn c09(j: &mut Judge, v: &StepView) {
+    // a fully correct fee-bearing bid that is not admitted: does the contract want another fee?
+    if let (Req::CreateBid { id, base, price, quote, quote_size, size, .. }, Verdict::Accept, false, Some(x)) =
+        (v.req, &v.exp.verdict, v.out.accepted(), v.exp.expected_fee)
+    {
+        for delta in [-2i128, -1, 1, 2] {
+            let f = x as i128 + delta;
+            if f < 0 {
+                continue;
+            }
+            let f = f as u128;
+            let fee = if f == 0 { None } else { Some((quote.as_str(), f)) };
+            let msg = wire::m_create_bid(id, base, fee, price, quote, *quote_size, *size);
+            let funds: Vec<(String, u128)> = if v.world_before.tables.restricted(quote) { vec![] } else { vec![(quote.clone(), quote_size + f)] };
+            let mut w = v.world_before.clone();
+            let out = w.execute(v.sender, &funds, &serde_json::to_vec(&msg).unwrap());
+            j.counters.probes += 1;
+            if out.accepted() {
+                j.violate(
+                    Prop::C09,
+                    "entry-fee",
+                    "create_bid:other-fee-wanted",
+                    format!("the bid with the exact fee {} is refused ({}), the same bid with fee {} is admitted", x, v.out.why, f),
+                );
+                break;
+            }
+        }
+    }
     if !v.out.accepted() {
         return;
     }
